@@ -142,7 +142,11 @@ def fmtv(v):
         return "an unknown/true value"
     if v[0] == "i":
         return str(bool(v[1])).lower() if v[1] in (0, 1) else str(v[1])
-    return "%s(%s)" % (v[1], fmtv(v[2]) if v[2] is not None else "")
+    if v[0] == "s":
+        return " or ".join(sorted(fmtv(x) for x in v[1]))
+    if v[0] == "v" and len(v) > 2:
+        return "%s(%s)" % (v[1], fmtv(v[2]) if v[2] is not None else "")
+    return str(v)
 
 
 def error_blocks(f):
